@@ -13,7 +13,8 @@
      (Nat / Zero / Minus / keyword tokens, comments already dropped) through its
      parse_header / parse_clauses / parse_clause / parse_lit; s-expressions from the AST
      LogicalSExpr; JSON from the serialiser structs (SerBDD, SDDOr, SerVTree).
-   * to_dimacs prints a text; its model is the sequence of integer tokens per printed line.
+   * to_dimacs prints a text; its model here is the sequence of integer tokens per printed line;
+     the characters themselves (and the lexer arms that read them) are in Model/SerializeText.v.
    * variable names (Rust String, ordered bytewise-lexicographically by Ord for String) are
      lists of byte values [list N] with [name_cmp] the lexicographic order.
    * HashSet<&String> is a duplicate-free list in an arbitrary order (here: insertion order);
